@@ -472,6 +472,9 @@ def _strip_one(t: T) -> T:
     return t
 
 
+SYMPY_FALSE = ("S.false", )
+
+
 def _q4(run: Run, mod) -> None:
     """the returned list consists of equations Eq(unknown, root) taken from ONE solution of sympy.solve(f, symbol, dict=True), never of a root that
     contradicts the unknown's assumptions (such an Eq evaluates to False), and solve's own verification of candidates is not switched off"""
@@ -499,9 +502,25 @@ def _q4(run: Run, mod) -> None:
             if name == "Eq" and len(n.args) == 2:
                 l, r = self.ev(n.args[0], env, fns), self.ev(n.args[1], env, fns)
                 if r == bad:
-                    return False  # SymPy evaluates Eq(norm(v), <negative>) to BooleanFalse
+                    return SYMPY_FALSE  # SymPy evaluates Eq(norm(v), <negative>) to S.false: EQUAL to Python's False, not identical with it
                 return ("eq", l, r)
             return NotImplemented
+
+        def hook_compare(self, o, l, r, n):
+            if l is SYMPY_FALSE or r is SYMPY_FALSE:
+                other = r if l is SYMPY_FALSE else l
+                if isinstance(o, (ast.Eq, ast.NotEq)):
+                    res = other is False or other is SYMPY_FALSE
+                    return res if isinstance(o, ast.Eq) else not res
+                if isinstance(o, (ast.Is, ast.IsNot)):
+                    res = other is SYMPY_FALSE
+                    return res if isinstance(o, ast.Is) else not res
+            return NotImplemented
+
+        def truthy(self, v, n):
+            if v is SYMPY_FALSE:
+                return False
+            return super().truthy(v, n)
 
     cases = [
         ("one solution", [{x: good1}], [[("eq", x, good1)]]),
